@@ -33,6 +33,14 @@ static int bits_to (unsigned char b[8], const char in[64])
   return ok;
 }
 
+/* a trailing "T" token on SK / EN runs the library call on a freshly created thread (joined before the op returns): the static key
+   of setkey/encrypt is process-wide, a history may set it on one thread and use it on another (seeded/C17c) */
+struct so_tcall { void (*sk)(const char *); void (*en)(char *, int); char *bits; int edflag; };
+static void *so_tcall_run (void *a)
+{ struct so_tcall *c = a; if (c->sk) c->sk (c->bits); else c->en (c->bits, c->edflag); return NULL; }
+static void so_on_thread (struct so_tcall *c)
+{ pthread_t th; pthread_create (&th, NULL, so_tcall_run, c); pthread_join (th, NULL); }
+
 static int op_so_dispatch (int n, char **tok)
 {
   typedef void (*setkey_f)(const char *); typedef void (*setkey_r_f)(const char *, struct crypt_data *);
@@ -41,7 +49,9 @@ static int op_so_dispatch (int n, char **tok)
   if (!strcmp (tok[0], "SK") && n >= 2)
     {
       unsigned char *k = unhex (tok[1], &l, &isn); char bits[64]; bits_from (bits, k, n > 2 ? (unsigned)atoi (tok[2]) : 0);
-      ((setkey_f) so_sym ("setkey", "GLIBC_2.2.5")) (bits); free (k); printf ("ok\n"); return 1;
+      if (n > 3 && !strcmp (tok[3], "T")) { struct so_tcall c = { (setkey_f) so_sym ("setkey", "GLIBC_2.2.5"), NULL, bits, 0 }; so_on_thread (&c); }
+      else ((setkey_f) so_sym ("setkey", "GLIBC_2.2.5")) (bits);
+      free (k); printf ("ok\n"); return 1;
     }
   if (!strcmp (tok[0], "SKR") && n >= 3)
     {
@@ -52,7 +62,8 @@ static int op_so_dispatch (int n, char **tok)
   if (!strcmp (tok[0], "EN") && n >= 4)
     {
       unsigned char *b = unhex (tok[1], &l, &isn), out[8]; char bits[64]; bits_from (bits, b, (unsigned)atoi (tok[3]));
-      ((encrypt_f) so_sym ("encrypt", "GLIBC_2.2.5")) (bits, atoi (tok[2]));
+      if (n > 4 && !strcmp (tok[4], "T")) { struct so_tcall c = { NULL, (encrypt_f) so_sym ("encrypt", "GLIBC_2.2.5"), bits, atoi (tok[2]) }; so_on_thread (&c); }
+      else ((encrypt_f) so_sym ("encrypt", "GLIBC_2.2.5")) (bits, atoi (tok[2]));
       int ok = bits_to (out, bits); printf ("d="); puthex (out, 8); printf (" bits01=%d\n", ok); free (b); return 1;
     }
   if (!strcmp (tok[0], "ENR") && n >= 5)
